@@ -64,6 +64,8 @@ func handle(c *Case) (out map[string]any) {
 		return fcanonCase(c)
 	case "ser.object":
 		return serObject(c)
+	case "script":
+		return scriptCase(c)
 	case "json.enc":
 		return jsonEnc(c)
 	case "json.dec":
